@@ -59,7 +59,7 @@ Section Codec.
     ks <- pnum 8 ;; klen <- pnum 2 ;; vlen <- pnum 4 ;; slen <- pnum 4 ;;
     key <- ptake klen ;; st <- ptake slen ;;
     value <- popt (match c with
-                   | CNone => Some st
+                   | CNone => if vlen =? blen st then Some st else None   (* stored length must equal the real length *)
                    | CLz4 => decompress st vlen
                    end) ;;
     pret (EItem ks key value vt c).
